@@ -948,8 +948,10 @@ impl<R: Read> RdbReader<R> {
                                 Err(_) => 0,
                             };
                             
-                            // Check if we have enough remaining data for all fields
-                            if entry_idx + (field_count * 2) > remaining_count {
+                            // Check if we have enough remaining data for all fields (the count is a number
+                            // read from the file: the arithmetic must not overflow)
+                            let needed = field_count.checked_mul(2).and_then(|n| n.checked_add(entry_idx));
+                            if needed.map_or(true, |n| n > remaining_count) {
                                 break; // Not enough data for all field-value pairs
                             }
                             
